@@ -8,12 +8,13 @@ Local Open Scope Z_scope.
 
 Section SigningProofs.
   Variable T : Type.
+  Variable v5 : bool.
   Variable sh_eqb : sighash T -> sighash T -> bool.
   Hypothesis sh_eqb_spec : forall a b, sh_eqb a b = true <-> a = b.
 
   Notation verifyb := (verifyb T sh_eqb).
   Notation checkmultisig := (checkmultisig T sh_eqb).
-  Notation input_valid := (input_valid T sh_eqb).
+  Notation input_valid := (input_valid T v5 sh_eqb).
 
   Lemma in_firstn {A} (x : A) : forall n l, In x (firstn n l) -> In x l.
   Proof.
@@ -50,7 +51,7 @@ Section SigningProofs.
   Qed.
 
   Lemma sign_input_valid keys tx i c ss :
-    sign_input T keys tx i c = Some ss -> input_valid tx i c ss = true.
+    sign_input T v5 keys tx i c = Some ss -> input_valid tx i c ss = true.
   Proof.
     unfold sign_input, input_valid. destruct (c_spend c) as [k|m n] eqn:Sp.
     - intros H. inversion H. rewrite Z.eqb_refl, verify_own. reflexivity.
@@ -68,7 +69,7 @@ Section SigningProofs.
     end.
 
   Lemma sign_input_over keys tx i c ss :
-    sign_input T keys tx i c = Some ss -> sigs_over ss (msg_for T tx i c).
+    sign_input T v5 keys tx i c = Some ss -> sigs_over ss (msg_for T v5 tx i c).
   Proof.
     unfold sign_input. destruct (c_spend c) as [k|m n] eqn:Sp.
     - intros H. inversion H. reflexivity.
@@ -78,15 +79,15 @@ Section SigningProofs.
   Qed.
 
   Lemma sign_from_index keys tx : forall cs i0 l,
-    sign_from T keys tx i0 cs = Some l ->
+    sign_from T v5 keys tx i0 cs = Some l ->
     forall j c, nth_error cs j = Some c ->
-      exists ss, nth_error l j = Some ss /\ sign_input T keys tx (i0 + j)%nat c = Some ss.
+      exists ss, nth_error l j = Some ss /\ sign_input T v5 keys tx (i0 + j)%nat c = Some ss.
   Proof.
     induction cs as [|c0 cs IH]; intros i0 l H j c N.
     - destruct j; discriminate.
     - cbn [sign_from] in H.
-      destruct (sign_input T keys tx i0 c0) as [s|] eqn:S0; [|discriminate].
-      destruct (sign_from T keys tx (S i0) cs) as [l'|] eqn:R; [|discriminate].
+      destruct (sign_input T v5 keys tx i0 c0) as [s|] eqn:S0; [|discriminate].
+      destruct (sign_from T v5 keys tx (S i0) cs) as [l'|] eqn:R; [|discriminate].
       inversion H. subst l. destruct j as [|j].
       + cbn in N. inversion N. subst c. exists s. rewrite Nat.add_0_r. split; [reflexivity|exact S0].
       + cbn [nth_error] in *. destruct (IH _ _ R j c N) as (ss & A & B).
@@ -95,18 +96,18 @@ Section SigningProofs.
 
   (** sig_index: input i is signed over the sighash for (i, value_i, script_i, ALL), and the
       resulting scriptSig satisfies the spent coin's script *)
-  Lemma sig_index keys tx cs l : apply_signatures T keys tx cs = Some l ->
+  Lemma sig_index keys tx cs l : apply_signatures T v5 keys tx cs = Some l ->
     length l = length cs /\
     forall i c, nth_error cs i = Some c ->
       exists ss, nth_error l i = Some ss /\
-                 sigs_over ss (msg_for T tx i c) /\ input_valid tx i c ss = true.
+                 sigs_over ss (msg_for T v5 tx i c) /\ input_valid tx i c ss = true.
   Proof.
     intros H. split.
     - unfold apply_signatures in H. revert l H. generalize 0%nat.
       induction cs as [|c cs IH]; intros i0 l H; cbn [sign_from] in H.
       + inversion H. reflexivity.
-      + destruct (sign_input T keys tx i0 c); [|discriminate].
-        destruct (sign_from T keys tx (S i0) cs) as [l'|] eqn:R; [|discriminate].
+      + destruct (sign_input T v5 keys tx i0 c); [|discriminate].
+        destruct (sign_from T v5 keys tx (S i0) cs) as [l'|] eqn:R; [|discriminate].
         inversion H. cbn [length]. f_equal. eapply IH; eauto.
     - intros i c N. destruct (sign_from_index keys tx cs 0%nat l H i c N) as (ss & A & B).
       cbn [Nat.add] in B. exists ss. split; [exact A|]. split.
@@ -117,7 +118,7 @@ Section SigningProofs.
   (** the sighash of a different input index is a different message: a signature placed on the
       wrong input does not verify *)
   Lemma wrong_index_rejected tx i j c k : i <> j ->
-    verifyb (Sig T k (msg_for T tx j c)) k (msg_for T tx i c) = false.
+    verifyb (Sig T k (msg_for T v5 tx j c)) k (msg_for T v5 tx i c) = false.
   Proof.
     intros Hne. apply not_true_is_false. intros V. apply verify_iff in V. destruct V as [_ E].
     unfold msg_for in E. destruct (c_spend c); inversion E; congruence.
@@ -125,7 +126,7 @@ Section SigningProofs.
 
   (** ... and neither does one over another coin's value *)
   Lemma wrong_value_rejected tx i c c' k : c_spend c = c_spend c' -> c_value c <> c_value c' ->
-    verifyb (Sig T k (msg_for T tx i c')) k (msg_for T tx i c) = false.
+    verifyb (Sig T k (msg_for T v5 tx i c')) k (msg_for T v5 tx i c) = false.
   Proof.
     intros Hs Hne. apply not_true_is_false. intros V. apply verify_iff in V. destruct V as [_ E].
     unfold msg_for in E. rewrite Hs in E. destruct (c_spend c'); inversion E; congruence.
@@ -143,9 +144,107 @@ Section SigningProofs.
 
   (** a multisig input can be signed exactly when the builder model says so *)
   Lemma sign_p2sh_iff keys tx i v m n :
-    sign_input T keys tx i (mkCoin v (SpP2sh m n)) <> None <-> p2sh_signable keys (m, n) = true.
+    sign_input T v5 keys tx i (mkCoin v (SpP2sh m n)) <> None <-> p2sh_signable keys (m, n) = true.
   Proof.
     unfold sign_input, p2sh_signable. cbn [c_spend fst snd].
     destruct (len (signing_keys keys m n) =? m); split; intros H; try congruence; try discriminate.
   Qed.
 End SigningProofs.
+
+(* ------------------------------------------------------------ the observed-selector clause holds of the model's signing step *)
+From V.C14 Require Import Spec.
+
+Lemma subseqb_filter (f : Z -> bool) : forall pks m, subseqb pks (firstn m (filter f pks)) = true.
+Proof.
+  induction pks as [|k pks IH]; intros m.
+  - cbn [filter]. rewrite firstn_nil. reflexivity.
+  - cbn [filter]. destruct (f k) eqn:Fk.
+    + destruct m as [|m]; [reflexivity|]. cbn [firstn subseqb]. rewrite Z.eqb_refl. apply IH.
+    + destruct (firstn m (filter f pks)) as [|k' ks] eqn:E; [reflexivity|].
+      cbn [subseqb].
+      assert (Fk' : f k' = true).
+      { assert (In k' (filter f pks)).
+        { assert (In k' (firstn m (filter f pks))) by (rewrite E; now left).
+          clear - H. revert m H. induction (filter f pks) as [|y l IHl]; intros m H.
+          - rewrite firstn_nil in H. destruct H.
+          - destruct m; [destruct H|]. cbn [firstn] in H. destruct H as [->|H]; [now left|right; eauto]. }
+        apply filter_In in H. tauto. }
+      replace (k' =? k) with false by (symmetry; apply Z.eqb_neq; congruence).
+      specialize (IH m). rewrite E in IH. exact IH.
+Qed.
+
+Lemma script_eqb_refl s : script_eqb s s = true.
+Proof. destruct s; cbn; rewrite ?Z.eqb_refl; reflexivity. Qed.
+Lemma script_eqb_eq a b : script_eqb a b = true <-> a = b.
+Proof.
+  destruct a, b; cbn; rewrite ?andb_true_iff, ?Z.eqb_eq; split; intros H; try discriminate;
+    try (inversion H; auto); try (destruct H; congruence); congruence.
+Qed.
+Lemma oscript_eqb_refl o : option_eqb script_eqb o o = true.
+Proof. destruct o; cbn; auto using script_eqb_refl. Qed.
+
+Lemma sign_input_sels v5 keys i c ss :
+  sign_input unit v5 keys tt i c = Some ss ->
+  input_sels_okb v5 (Z.of_nat i) c (sels_of_script_sig ss) = true.
+Proof.
+  unfold sign_input, input_sels_okb. destruct c as [v sp]. cbn [c_spend c_value].
+  destruct sp as [k|m n].
+  - intros H. inversion H. cbn [sels_of_script_sig sel_of_sig forallb].
+    unfold sel_okb, msg_for, code_of, coin_script.
+    cbn [c_spend c_value s_index s_value s_type s_code s_spk s_key h_index h_value h_type h_code h_spk].
+    rewrite !Z.eqb_refl, script_eqb_refl, oscript_eqb_refl. reflexivity.
+  - destruct (len (signing_keys keys m n) =? m) eqn:L; [|discriminate].
+    intros H. inversion H. cbn [sels_of_script_sig].
+    apply andb_true_intro. split.
+    + apply forallb_forall. intros s Hs. apply in_map_iff in Hs. destruct Hs as (sg & <- & Hs).
+      apply in_map_iff in Hs. destruct Hs as (k & <- & _).
+      unfold sel_okb, sel_of_sig, msg_for, code_of, coin_script.
+      cbn [c_spend c_value s_index s_value s_type s_code s_spk h_index h_value h_type h_code h_spk].
+      rewrite !Z.eqb_refl, script_eqb_refl, oscript_eqb_refl. reflexivity.
+    + unfold len in *. rewrite !map_length, L. cbn [andb].
+      rewrite !map_map. cbn [sel_of_sig s_key]. rewrite map_id.
+      unfold signing_keys. apply subseqb_filter.
+Qed.
+
+Lemma sign_from_sels v5 keys : forall cs i0 l,
+  sign_from unit v5 keys tt i0 cs = Some l ->
+  sels_okb_from v5 (Z.of_nat i0) cs (map sels_of_script_sig l) = true.
+Proof.
+  induction cs as [|c cs IH]; intros i0 l H; cbn [sign_from] in H.
+  - inversion H. reflexivity.
+  - destruct (sign_input unit v5 keys tt i0 c) as [s|] eqn:S0; [|discriminate].
+    destruct (sign_from unit v5 keys tt (S i0) cs) as [l'|] eqn:R; [|discriminate].
+    inversion H. cbn [map sels_okb_from]. rewrite (sign_input_sels _ _ _ _ _ S0). cbn [andb].
+    replace (Z.of_nat i0 + 1) with (Z.of_nat (S i0)) by lia. now apply IH.
+Qed.
+
+(** the signing step succeeds exactly when every multisig input has enough registered keys *)
+Lemma sign_from_total v5 keys : forall ops pos i0,
+  forallb (p2sh_signable keys) (tsh_mn ops) = true ->
+  exists l, sign_from unit v5 keys tt i0 (coins_from pos ops) = Some l.
+Proof.
+  induction ops as [|o ops IH]; intros pos i0 H; [exists []; reflexivity|].
+  destruct o; cbn [coins_from]; try (apply IH; exact H).
+  - destruct (IH (pos + 1) (S i0) H) as [l Hl]. cbn [sign_from]. unfold sign_input at 1. cbn [c_spend].
+    rewrite Hl. eauto.
+  - unfold tsh_mn in H. cbn [flat_map tsh_of app forallb] in H. apply andb_prop in H. destruct H as [H1 H2].
+    destruct (IH (pos + 1) (S i0) H2) as [l Hl]. cbn [sign_from]. unfold sign_input at 1. cbn [c_spend].
+    unfold p2sh_signable in H1. cbn [fst snd] in H1. rewrite H1, Hl. eauto.
+Qed.
+
+Lemma model_sels_ok keys v ops :
+  forallb (p2sh_signable keys) (tsh_mn ops) = true ->
+  sels_okb_from (is_v5 v) 0 (coins_of ops) (model_sels keys v ops) = true.
+Proof.
+  intros H. unfold model_sels, apply_signatures, coins_of.
+  destruct (sign_from_total (is_v5 v) keys ops 0 0%nat H) as [l Hl]. rewrite Hl.
+  apply (sign_from_sels _ _ _ 0%nat _ Hl).
+Qed.
+
+Lemma sel_eqb_eq a b : sel_eqb a b = true <-> a = b.
+Proof.
+  destruct a as [a1 a2 a3 a4 a5 a6], b as [b1 b2 b3 b4 b5 b6]. unfold sel_eqb.
+  cbn [s_key s_index s_value s_code s_spk s_type].
+  rewrite !andb_true_iff, !Z.eqb_eq, script_eqb_eq, (option_eqb_spec script_eqb script_eqb_eq).
+  split; [intros (((((-> & ->) & ->) & ->) & ->) & ->); reflexivity|intros H; inversion H; subst; repeat split; reflexivity].
+Qed.
